@@ -171,10 +171,14 @@ CLAIMED = {
     "C16": ("Lean 4 theorems about a model of the five places where the analyser matches a value against a declared type (initialiser, "
             "variable assignment, field assignment, argument, return), mirrored guard by guard with their helper functions: for every pair of "
             "known types each position rejects exactly the incompatible pairs (same type, int->long, subclass, null for class references), "
-            "hence all positions agree + EXHAUSTIVE rule x position matrix on the real analyser: every violating program must be rejected "
+            "hence all positions agree; and about a mirror of the analyser's symbol handling on a statement fragment (declarations, "
+            "assignments, ++, blocks, if/while/for/ternary): the walk accepts exactly the programs derivable in an inductive rule system "
+            "for use-before-declaration, redeclaration and final (soundness and completeness) + random statement trees with injected "
+            "violations through the Lean walk and the real analyser + EXHAUSTIVE rule x position matrix on the real analyser: every violating program must be rejected "
             "and its repaired twin accepted; the type matrix also against the Lean model's verdicts",
-            "Proof on the model for the declared-type rule over all primitives, linear class hierarchies and arrays; PARTIAL: the other "
-            "rules (final, visibility, declaration order, void, static/abstract, this/super, @quantum, @shots, null) are decided by the "
+            "Proof on the model for the declared-type rule over all primitives, linear class hierarchies and arrays, and for the "
+            "declaration/final rules of local variables in every statement and expression position; PARTIAL: the other "
+            "rules (fields' final rules, visibility, void, static/abstract, this/super, @quantum, @shots, null) are decided by the "
             "matrix oracle on the real analyser only (finite table of rules x positions), not by theorems.",
             "Trusted: Lean kernel (core-only), matrix generator tools/semgen.py, harness+orchestrator. Defects found and repaired: six "
             "position holes (see known_findings.json C16-*).", "DESIGN.md §4 C16"),
